@@ -10,15 +10,19 @@ pub struct Poisson {
 
 impl Poisson {
     pub fn arrival_probability(&self, delta: Duration, njobs: usize) -> f64 {
-        // quick and dirty naive factorial: k!
-        let mut denominator = 1.0;
-        for x in 1..(njobs + 1) {
-            denominator *= x as f64;
-        }
         let mean = Time::from(delta) as f64 * self.rate;
-        let mut numerator = (-mean).exp(); // e^(- rate * delta)
-        numerator *= mean.powi(njobs as i32); // (rate * delta)**k
-        numerator / denominator
+        if mean <= 0.0 {
+            // degenerate case: no arrivals with probability one
+            return if njobs == 0 { 1.0 } else { 0.0 };
+        }
+        // Evaluate e^(-mean) * mean^k / k! in log space: the power and the
+        // factorial overflow for a few hundred jobs and e^(-mean) underflows
+        // for large means, although the probability itself is representable.
+        let mut ln_prob = -mean + njobs as f64 * mean.ln();
+        for x in 1..(njobs + 1) {
+            ln_prob -= (x as f64).ln(); // ln(k!)
+        }
+        ln_prob.exp()
     }
 
     pub fn approximate(&self, epsilon: f64) -> ApproximatedPoisson {
